@@ -1,5 +1,6 @@
 import GormModel.Drv.Util
 import GormModel.Model.Hooks
+import GormModel.Model.HookSchema
 import GormModel.Gen.Pipelines
 import GormModel.Gen.Finishers
 open Lean
@@ -8,6 +9,29 @@ namespace Gorm.Drv
 def hevJ : HEv → Json
   | .hook n i => Json.arr #[Json.str n, natJ i]
   | .stmt => Json.arr #[Json.str "stmt"]
+
+namespace HC13
+
+def methsOf (j : Json) : Option (List Meth) := do
+  let a ← jArr? j
+  a.toList.mapM fun m => do
+    let p ← jArr? m
+    some ⟨← jStr? (arg p 0), ← jStr? (arg p 1)⟩
+
+/-- error values: ["plain", id] | ["sentinel", name] | ["wrap", e] | ["join", a, b] | ["isall", id]; fuel bounds the depth -/
+def errOf : Nat → Json → Option ErrV
+  | 0, _ => none
+  | fuel+1, j => do
+    let a ← jArr? j
+    match ← jStr? (arg a 0) with
+    | "plain" => some (.plain (← jNat? (arg a 1)))
+    | "sentinel" => some (.sentinel (← jStr? (arg a 1)))
+    | "isall" => some (.isAll (← jNat? (arg a 1)))
+    | "wrap" => some (.wrap (← errOf fuel (arg a 1)))
+    | "join" => some (.join (← errOf fuel (arg a 1)) (← errOf fuel (arg a 2)))
+    | _ => none
+
+end HC13
 
 /-- ["hooks.events", pipeline, [implemented hook names], n] -> predicted event list (no failure) -/
 def handleC13 (op : String) (args : Array Json) : Option Json := do
@@ -31,6 +55,33 @@ def handleC13 (op : String) (args : Array Json) : Option Json := do
     let runs := (runsOf Gen.finishers skipHookFinishers 4 false fn).eraseDups
     some (Json.arr (runs.map (fun run =>
       Json.arr ((compoundEvents Gen.pipelines Gen.handlers (fun h => hs.contains h) run n batches).map hevJ).toArray)).toArray)
+  | "hooks.flags" =>
+    -- ["hooks.flags", [[method, signature]…]] -> Schema flags schema.Parse computes + which hook call sites fire
+    let ms ← HC13.methsOf (arg args 1)
+    some (Json.mkObj [
+      ("flags", Json.arr ((genFlags ms).map fun p => Json.arr #[Json.str p.1, Json.bool p.2]).toArray),
+      ("sites", Json.arr (Gen.hookSites.map fun s => Json.arr #[Json.str s.handler, Json.str s.hook, Json.bool (siteFires ms s)]).toArray)])
+  | "hooks.eventsms" =>
+    -- ["hooks.eventsms", pipeline, [[method, signature]…], n] -> predicted event list for a model with that method set
+    let k ← jStr? (arg args 1)
+    let ms ← HC13.methsOf (arg args 2)
+    let n ← jNat? (arg args 3)
+    let p ← Gen.pipelines.find? (fun p => p.1 = k)
+    some (Json.arr ((opEventsMs Gen.handlers p.2 ms n).map hevJ).toArray)
+  | "hooks.errflow" =>
+    -- ["hooks.errflow", cur | null, e, [sentinels], [atoms that are true]] -> db.Error after AddError(e), what
+    -- CommitOrRollbackTransaction does, errors.Is of the stored error against each sentinel
+    let cur := HC13.errOf 16 (arg args 1)
+    let e ← HC13.errOf 16 (arg args 2)
+    let sents ← (← jArr? (arg args 3)).toList.mapM jStr?
+    let trueAtoms ← (← jArr? (arg args 4)).toList.mapM jStr?
+    let atom := fun a => trueAtoms.contains a
+    let r := hookAddError atom cur e
+    some (Json.mkObj [
+      ("stored", Json.bool r.isSome),
+      ("carries", Json.bool (match r with | some x => x.carries e | none => false)),
+      ("is", Json.arr (sents.map fun s => Json.bool (match r with | some x => x.is s | none => false)).toArray),
+      ("decision", strListJ (txDecision atom r))])
   | "hooks.batches" =>
     let n ← jNat? (arg args 1)
     let b ← jNat? (arg args 2)
